@@ -4,6 +4,7 @@ Per action: the set of paths through its code, each with the ordered list of eff
 assembler's output/context objects, the branch decisions taken and the abstract return value.
 Value domain: string templates (finite sets of literal/hole sequences), typed numbers with a
 symbolic polynomial, options, results, unit, unknown (TOP).  Unknown is never a violation."""
+import re
 import itertools
 import re
 
@@ -278,8 +279,12 @@ class Evaluator:
                 env[n] = v
             p.env = env
             n_before = len(p.effects)
+            c_before = len(p.conds)
             outs = self.block(h["body"], [p])
             for q in outs:
+                if isinstance(recv, Obj) and not recv.name.startswith(("path:", "variant:")):
+                    # conditions tested inside a method are conditions on the receiver: `self.x` reads `context.x`
+                    q.conds[c_before:] = [(re.sub(r"\bself\b", recv.name, c[0]),) + tuple(c[1:]) for c in q.conds[c_before:]]
                 # an `Err(..)` built inside a helper is a value handed to the caller, not yet a diagnostic of the action
                 for e_ in q.effects[n_before:]:
                     if e_.kind == "error" and getattr(e_, "start", None) is None and getattr(e_, "msg", None) is None:
@@ -426,6 +431,8 @@ class Evaluator:
         consts = {"u16::MAX": 65535, "u8::MAX": 255, "i16::MAX": 32767, "i8::MAX": 127, "u32::MAX": (1 << 32) - 1, "MB": 1 << 20}
         if full in consts:
             p.ret = Num("int", p_const(consts[full]))
+        elif len(segs) == 2 and segs[0][:1].isupper() and segs[1][:1].isupper() and not segs[1].isupper() and segs[0] not in ("LabelType", "Flags", "State"):
+            p.ret = Obj("variant:" + full, {"$args": []})
         else:
             p.ret = Obj("path:" + full)
         return [p]
@@ -750,7 +757,8 @@ class Evaluator:
                         take = False
                     else:
                         self.bind_payload(pat, scrut.some, q)
-                        remaining["some"] = False
+                        if all(self.irrefutable(x) for x in (pat.get("elems") or [])):
+                            remaining["some"] = False  # Some(x): everything that is Some; Some(PATTERN) leaves the rest to later arms
                 elif tag == "None":
                     if not scrut.none or not remaining["none"]:
                         take = False
@@ -776,6 +784,23 @@ class Evaluator:
                 else:  # wildcard / binding: whatever is left
                     if not ((scrut.ok is not None and remaining["ok"]) or (scrut.err and remaining["err"])):
                         take = False
+                    if pat["k"] == "ident":
+                        q.env[pat["name"]] = scrut
+            elif isinstance(scrut, Obj) and scrut.name.startswith("variant:"):
+                # a value of a user enum built by a known constructor: only the arm of that variant (or a catch-all)
+                vname = scrut.name.split("::")[-1]
+                if remaining.get("variant_done"):
+                    take = False
+                elif tag is not None and pat["k"] in ("tuple_struct", "path", "struct"):
+                    if tag != vname:
+                        take = False
+                    else:
+                        remaining["variant_done"] = True
+                        if pat["k"] == "tuple_struct":
+                            for sp, v_ in zip(pat.get("elems") or [], scrut.attrs.get("$args") or []):
+                                self.bind(sp, v_, q)
+                elif self.irrefutable(pat):
+                    remaining["variant_done"] = True
                     if pat["k"] == "ident":
                         q.env[pat["name"]] = scrut
             else:
@@ -837,9 +862,26 @@ class Evaluator:
             return pat["segs"][-1]
         return None
 
+    def irrefutable(self, pat):
+        k = pat.get("k")
+        if k == "wild" or k == "rest":
+            return True
+        if k == "ident":
+            return pat.get("name", "A")[0].islower() and pat.get("sub") is None
+        if k == "tuple":
+            return all(self.irrefutable(x) for x in pat.get("elems", []))
+        if k == "ref":
+            return self.irrefutable(pat["p"])
+        return False
+
     def pat_str(self, pat):
         if pat["k"] == "tuple_struct":
+            inner = pat.get("elems") or []
+            if inner and not all(self.irrefutable(x) for x in inner):
+                return "::".join(pat["path"]) + "(" + ", ".join(self.pat_str(x) for x in inner) + ")"
             return "::".join(pat["path"]) + "(..)"
+        if pat["k"] == "tuple":
+            return "(" + ", ".join(self.pat_str(x) for x in pat.get("elems", [])) + ")"
         if pat["k"] == "ident":
             return pat["name"]
         if pat["k"] == "path":
@@ -878,6 +920,10 @@ class Evaluator:
             p.ret = Obj("parser")
         elif fname in ("String::from", "String::new"):
             p.ret = args[0] if args else Str.lit("")
+        elif f["k"] == "path" and len(f["segs"]) >= 2 and f["segs"][-1][:1].isupper() and f["segs"][-2][:1].isupper() \
+                and (f["segs"][-2], f["segs"][-1]) not in getattr(self, "helpers", {}) and f["segs"][-2] not in ("String", "Vec", "Box", "Regex", "HashMap", "HashSet", "ParseError", "State", "Token"):
+            # Enum::Variant(args): a value of a user enum; matched later by variant name
+            p.ret = Obj("variant:" + "::".join(f["segs"][-2:]), {"$args": args})
         else:
             segs = fname.split("::")
             h = getattr(self, "helpers", {}).get((segs[-2] if len(segs) > 1 else None, segs[-1]))
@@ -1067,6 +1113,14 @@ class Evaluator:
 
     def apply_closure(self, clos, argvals, p):
         """paths of the closure body evaluated on this path (its parameters bound, then unbound again)"""
+        if isinstance(clos, Obj) and clos.name.startswith("path:") and "::" in clos.name and len(argvals) == 1:
+            # a function path used as the callable (`.map(Label::get_type)`): the method applied to the payload
+            ty, m = clos.name[5:].rsplit("::", 1)
+            h = getattr(self, "helpers", {}).get((ty.split("::")[-1], m))
+            if h is not None and h["params"] and h["params"][0] == "self" and len(h["params"]) == 1:
+                return self.inline(h, argvals[0], [], p)
+            p.ret = Obj("label_type") if m == "get_type" else Top("fn-path:" + m)
+            return [p]
         if not (isinstance(clos, Obj) and clos.name == "closure" and clos.attrs.get("$body") is not None):
             return None
         params, body = clos.attrs["$params"], clos.attrs["$body"]
@@ -1091,7 +1145,7 @@ class Evaluator:
     def combinator(self, recv, recv_node, m, args, p, line):
         """Option/Result combinators taking a closure: map, and_then, or_else, map_err, unwrap_or_else, ok_or_else.
         Returns the resulting paths, or None if this is not such a call."""
-        if not args or not (isinstance(args[0], Obj) and args[0].name == "closure"):
+        if not args or not (isinstance(args[0], Obj) and (args[0].name == "closure" or (args[0].name.startswith("path:") and "::" in args[0].name))):
             return None
         clos = args[0]
         desc = self.describe(recv_node)
